@@ -2792,7 +2792,10 @@ func (a *Agent) handlePeerDisconnect(conn *peer.Connection, err error) {
 
 // cleanupRelaysForPeer removes all relay entries involving the specified peer.
 func (a *Agent) cleanupRelaysForPeer(peerID identity.AgentID) {
-	if cleaned := a.tcpRelay.DeleteByPeer(peerID); cleaned > 0 {
+	cleaned := a.tcpRelay.DeleteByPeer(peerID)
+	cleaned += a.udpRelay.DeleteByPeer(peerID)
+	cleaned += a.icmpRelay.DeleteByPeer(peerID)
+	if cleaned > 0 {
 		a.logger.Debug("cleaned up relay streams",
 			logging.KeyPeerID, peerID.ShortString(),
 			logging.KeyCount, cleaned)
